@@ -36,6 +36,13 @@ def fixed_data(kt, n, seed, shape):
                 v.append(min(x, top)); x += r.choice([0, 1, 1, 2, 3, 7])
             x += r.randint(1, max(2, top // (n // 2 + 1)))
         v = v[:n]
+    elif shape == 'dense_high':    # runs of consecutive keys far above 2^53 (where double no longer represents every integer), a few gaps
+        v = []; x = (1 << (bits - 3)) + r.randint(0, 1 << 20)
+        while len(v) < n:
+            for _ in range(r.randint(4, 12)):
+                v.append(min(x, top)); x += 1
+            x += r.choice([1, 3, 1000, 1 << 40])
+        v = v[:n]
     elif shape == 'groups':        # groups of 4 consecutive keys 100 apart, then one far key: the upper level under-estimates the last groups
         g = (n - 1) // 4
         v = [100 * i + t for i in range(g) for t in range(4)]
@@ -307,7 +314,7 @@ JOBS['C04'] = [pla('pla_max_k3_e%d_x15' % e, 3, epsfix=e, xmax=15, ymax=6) for e
 JOBS['C14'] = [md('md_contains_n1', 0, 1, 3), md('md_contains_n2', 0, 2, 3)]
 JOBS['C13'] = [md('md_range_n1', 1, 1, 3), md('md_range_n2', 1, 2, 3), md('md_range_n3_skip', 1, 3, 1, miss=0, epsrec=0, timeout=3000, tiers=T, mem_gb=40)]
 JOBS['C05'] = [dyn('dyn_q_noidx_b0_o2', 0, 0, 2, idxl=10), dyn('dyn_q_noidx_b0_o3', 0, 0, 3, idxl=10), dyn('dyn_q_noidx_b0_o4', 0, 0, 4, idxl=10, timeout=1500)]
-JOBS['C06'] = [dyn('dyn_it_noidx_b0_o2', 1, 0, 2, idxl=10), dyn('dyn_rng_noidx_b0_o2', 3, 0, 2, idxl=10), dyn('dyn_lbit_noidx_b0_o2', 4, 0, 2, idxl=10), dyn('dyn_it_noidx_b0_o3', 1, 0, 3, idxl=10, tiers=T, timeout=3000)]   # 4 operations: out of memory at the 14 GB cap - not a job
+JOBS['C06'] = [dyn('dyn_it_noidx_b0_o2', 1, 0, 2, idxl=10), dyn('dyn_rng_noidx_b0_o2', 3, 0, 2, idxl=10), dyn('dyn_lbit_noidx_b0_o2', 4, 0, 2, idxl=10)]   # traversal after 3 or 4 symbolic operations: out of memory at the 14 GB cap - not a job
 JOBS['C05'] += [mergek('merge_skip_r3', 1), mergek('merge_keep_r3', 0),
                 mergek('merge_skip_r4', 1, runmax=4, kmax=7, tiers=T, timeout=1800), mergek('merge_keep_r4', 0, runmax=4, kmax=7, tiers=T, timeout=1800)]
 JOBS['C06'] += [losertree('losertree_k%d' % k, k) for k in (1, 2, 3, 4)]
@@ -318,7 +325,8 @@ JOBS['C19'] = [copyjob('copy_%s_%s_n2' % (kn, MODE_TAG[m]), k, 2, 1, 1 << m, tie
                for k, kn, ms in ((0, 'pgm', range(6)), (1, 'bucket', range(6)), (2, 'md', range(6)), (3, 'dyn', (0, 2, 6, 7))) for m in ms]
 JOBS['C15'] = [dyn('dyn_inv_noidx_b0_o2', 2, 0, 2, idxl=10), dyn('dyn_inv_noidx_b0_o3', 2, 0, 3, idxl=10), dyn('dyn_inv_noidx_b0_o4', 2, 0, 4, idxl=10, tiers=T, timeout=3000, mem_gb=40)]
 JOBS['C05'] += [dynstep('dynstep_find_311', 5, 3, 1, 1, timeout=1500), dynstep('dynstep_find_310', 5, 3, 1, 0, tiers=T, timeout=3000), dynstep('dynstep_q_310', 0, 3, 1, 0, tiers=T, timeout=3000)]   # dynstep_q_321 (second level up to 2, third up to 1): no verdict in 3000 s (solver timeout) - not a job
-JOBS['C06'] += [dynstep('dynstep_range_310', 6, 3, 1, 0, tiers=T, timeout=3000, mem_gb=40), dynstep('dynstep_it_310', 1, 3, 1, 0, tiers=T, timeout=3000, mem_gb=40)]   # dynstep_rng_310 (size/empty/range in one harness): out of memory at 34 GB - not a job; range alone is dynstep_range_310
+# inductive-step traversal / range jobs (dynstep_it_310, dynstep_range_310): out of memory / no verdict within 3000 s in the full thorough pass - not jobs;
+# two-level traversal is covered by the LoserTree kernel jobs and by the fixed-history jobs dyn_fixed_it_h24_s1 / dyn_fixed_rng_h24_s1   # dynstep_rng_310 (size/empty/range in one harness): out of memory at 34 GB - not a job; range alone is dynstep_range_310
 JOBS['C15'] += [dynstep('dynstep_inv_322', 2, 3, 2, 2)]
 JOBS['C11'] = [mapped('mapped_u8_n2', 'uint8_t', 2), mapped('mapped_i8_n2', 'int8_t', 2), mapped('mapped_u8_n3_dense', 'uint8_t', 3, ord_hi=3), mapped('mapped_i8_n3', 'int8_t', 3, tiers=T, timeout=3000)]
 
@@ -409,11 +417,13 @@ FX_C = e2e_fixed('e2e_fixed_u32_n40_e1_r1_s4', 'uint32_t', 40, 1, 1, 4, 'cluster
 FX_D = e2e_fixed('e2e_fixed_i64_n40_e2_r2_uniform', 'int64_t', 40, 2, 2, 2, 'uniform', flt='double', tiers=T, timeout=1800)
 FX_E = e2e_fixed('e2e_fixed_u64_n80_e4_r4_s3', 'uint64_t', 80, 4, 4, 3, 'clustered', flt='double', tiers=T, timeout=1800)
 FX_BIN = e2e_fixed('e2e_fixed_u64_n113_e1_r26_groups', 'uint64_t', 113, 1, 26, 1, 'groups', flt='double', timeout=1800)
+FX_H = e2e_fixed('e2e_fixed_u64_n32_e1_r1_dense_high', 'uint64_t', 32, 1, 1, 5, 'dense_high', flt='double')
+FX_HI = e2e_fixed('e2e_fixed_i64_n32_e1_r0_dense_high', 'int64_t', 32, 1, 0, 6, 'dense_high', flt='float', tiers=T, timeout=1800)
 JOBS['C07'] += [FX_A, FX_B, FX_C, FX_BIN]
 JOBS['C16'] += [e2e_fixed('frame_fixed_u32_n24_e1_r1_s6', 'uint32_t', 24, 1, 1, 6, 'clustered', extra=dict(WITH_FRAME=1, SNAP_MAX=512)),
                 e2e_fixed('frame_fixed_u32_n40_e1_r0_steps8', 'uint32_t', 40, 1, 0, 8, 'steps', extra=dict(WITH_FRAME=1, SNAP_MAX=512), tiers=T)]
-JOBS['C01'] += [FX_A, FX_D, FX_E]
-JOBS['C02'] += [FX_BIN, FX_B, FX_D, FX_E]
+JOBS['C01'] += [FX_A, FX_D, FX_E, FX_H, FX_HI]
+JOBS['C02'] += [FX_BIN, FX_B, FX_D, FX_E, FX_H, FX_HI]
 # (a symbolic LAST key on top of fixed data - harness switch SYM_LAST - ran out of memory at 14 GB even for n = 24: not a job)
 PROPS['C19'] = dict(level='model_checking', assumptions=MODEL, workers=8,
                     outside=['CompressedPGMIndex and EliasFanoPGMIndex (sdsl sd_vector / select supports: out of memory, see C08/C10)',
